@@ -56,7 +56,7 @@ Proof. intros Hf. exact Hf. Qed.
 (* ------------------------------------------------------------------ (1) decoding gives a lazy form *)
 
 Lemma dec_child_lzf d gen c : child_shape c -> all_fits H c -> cov1 H (stored H d) c ->
-  (canon c = true -> lzf H d true c (dec_node H gen None c)) ->
+  (canon c = true -> big H c = false -> lzf H d true c (dec_node H gen None c)) ->
   lzf H d true c (dec_child H gen c) /\ hash_big H c (dec_child H gen c).
 Proof.
   intros [->|[[v ->]|Hc]] Hfit [Hst Hcov] IH.
@@ -65,39 +65,45 @@ Proof.
   - rewrite (dec_child_canon H gen c Hc). destruct (big H c) eqn:Eb.
     + split; [|intros h _; exact Eb]. apply lzf_hash. unfold avail.
       split; [exact Hc|]. split; [exact Hfit|]. split; [apply Hst; [exact Hc|reflexivity]|exact Hcov].
-    + split; [apply IH; exact Hc|]. intros h E. exfalso. exact (dec_node_neq_hash H gen None c h Hc E).
+    + split; [apply IH; [exact Hc|reflexivity]|]. intros h E. exfalso. exact (dec_node_neq_hash H gen None c h Hc E).
 Qed.
 
 Lemma dec_lzf_gen d gen : forall m hash s, canon m = true -> all_fits H m -> covers H d m ->
   (forall h, hash = Some h ->
      h = H (spec_enc H m) /\ (s = true -> big H m = true) /\ stored H d m) ->
+  (hash = None -> s = true /\ big H m = false) ->
   lzf H d s m (dec_node H gen hash m).
 Proof.
-  induction m as [|k c f IH|cs f IH|h|v] using node_ind'; intros hash s Hc Hfit Hcov Hh; try discriminate Hc.
+  induction m as [|k c f IH|cs f IH|h|v] using node_ind'; intros hash s Hc Hfit Hcov Hh Hn; try discriminate Hc.
   - rewrite dec_node_short.
     pose proof (canon_short_child _ _ _ Hc) as Hs.
     pose proof Hfit as [_ Hfitc]. pose proof (proj1 (covers_p_short H (stored H d) k c f) Hcov) as Hcovc.
     destruct (dec_child_lzf d gen c Hs Hfitc Hcovc) as [U B].
-    { intros Hcc. apply IH; try assumption; [exact (proj2 Hcovc)|]. intros h E; discriminate E. }
+    { intros Hcc Hsm. apply IH; try assumption; [exact (proj2 Hcovc)|intros h E; discriminate E|]. intros _. split; [reflexivity|exact Hsm]. }
     apply lzf_short; [exact U|exact B|]. split; cbn [fhash fdirty].
     + intros h E. destruct (Hh h E) as (E1 & E2 & _). split; assumption.
-    + intros _. split; [exact Hc|]. split; [exact Hfit|]. split; [exact Hcov|].
-      intros h E. exact (proj2 (proj2 (Hh h E))).
+    + split.
+      * intros _. split; [exact Hc|]. split; [exact Hfit|]. split; [exact Hcov|].
+        intros h E. exact (proj2 (proj2 (Hh h E))).
+      * intros E _. exact (Hn E).
   - rewrite dec_node_full. pose proof (canon_full_children _ _ Hc) as Hs.
     pose proof (proj1 (all_fits_full H cs f) Hfit) as [_ Hfitc].
     pose proof (proj1 (covers_p_full H (stored H d) cs f) Hcov) as Hcovc.
     assert (HF : Forall (fun c => lzf H d true c (dec_child H gen c) /\ hash_big H c (dec_child H gen c)) cs).
     { rewrite Forall_forall in *. intros x Hin.
       apply dec_child_lzf; [apply Hs; exact Hin|apply Hfitc; exact Hin|apply Hcovc; exact Hin|].
-      intros Hcx. apply (IH x Hin); [exact Hcx|apply Hfitc; exact Hin|exact (proj2 (Hcovc x Hin))|].
-      intros h E; discriminate E. }
+      intros Hcx Hsm. apply (IH x Hin); [exact Hcx|apply Hfitc; exact Hin|exact (proj2 (Hcovc x Hin))| |].
+      - intros h E; discriminate E.
+      - intros _. split; [reflexivity|exact Hsm]. }
     apply lzf_full.
     + apply Forall2_map_r. eapply Forall_impl; [|exact HF]. cbv beta. tauto.
     + apply Forall2_map_r. eapply Forall_impl; [|exact HF]. cbv beta. tauto.
     + split; cbn [fhash fdirty].
       * intros h E. destruct (Hh h E) as (E1 & E2 & _). split; assumption.
-      * intros _. split; [exact Hc|]. split; [exact Hfit|]. split; [exact Hcov|].
-        intros h E. exact (proj2 (proj2 (Hh h E))).
+      * split.
+        -- intros _. split; [exact Hc|]. split; [exact Hfit|]. split; [exact Hcov|].
+           intros h E. exact (proj2 (proj2 (Hh h E))).
+        -- intros E _. exact (Hn E).
 Qed.
 
 (* the node resolveHash returns for a stored node *)
@@ -105,14 +111,17 @@ Lemma dec_lzf : forall d gen s m, avail H d m -> (s = true -> big H m = true) ->
   lzf H d s m (dec_node H gen (Some (H (spec_enc H m))) m).
 Proof.
   intros d gen s m (Hc & Hfit & Hst & Hcov) Hb. apply dec_lzf_gen; try assumption.
-  intros h E. injection E as <-. split; [reflexivity|]. split; assumption.
+  - intros h E. injection E as <-. split; [reflexivity|]. split; assumption.
+  - intros E; discriminate E.
 Qed.
 
 (* an embedded child decoded in place (no cached hash) *)
-Lemma dec_lzf_embedded : forall d gen s c, canon c = true -> all_fits H c -> covers H d c ->
-  lzf H d s c (dec_node H gen None c).
+Lemma dec_lzf_embedded : forall d gen c, canon c = true -> all_fits H c -> covers H d c ->
+  big H c = false -> lzf H d true c (dec_node H gen None c).
 Proof.
-  intros d gen s c Hc Hfit Hcov. apply dec_lzf_gen; try assumption. intros h E; discriminate E.
+  intros d gen c Hc Hfit Hcov Hb. apply dec_lzf_gen; try assumption.
+  - intros h E; discriminate E.
+  - intros _. split; [reflexivity|exact Hb].
 Qed.
 
 (* ------------------------------------------------------------------ (2) tryGet *)
@@ -313,7 +322,7 @@ Proof.
     + intros h E. subst c. destruct Hs as [E|[[v E]|E]]; discriminate E.
     + unfold fnohash in Hf. split.
       * intros h E. rewrite E in Hf. discriminate Hf.
-      * intros E. rewrite E in Hdf. discriminate Hdf.
+      * split; [intros E|intros _ E]; rewrite E in Hdf; discriminate Hdf.
   - destruct Hsh as [E|[[v E]|Hc]]; try discriminate E.
     cbn [nohash] in Hn. apply andb_prop in Hn as [Hf Hnc].
     rewrite alldirty_full in Hd. apply andb_prop in Hd as [Hdf Hdc].
@@ -325,7 +334,7 @@ Proof.
       destruct (Hs _ Hin) as [E|[[v E]|E]]; discriminate E.
     + unfold fnohash in Hf. split.
       * intros h E. rewrite E in Hf. discriminate Hf.
-      * intros E. rewrite E in Hdf. discriminate Hdf.
+      * split; [intros E|intros _ E]; rewrite E in Hdf; discriminate Hdf.
   - destruct Hsh as [E|[[v E]|Hc]]; discriminate.
   - apply lzf_val.
 Qed.
